@@ -4,6 +4,7 @@ Everything here is *syntax*; all numeric quantities of the generated models stay
 solver queries.  The families are deterministic (no randomness) so case ids are stable.
 """
 import itertools
+import re
 
 REAL_ATOMS = ["a", "b", "c", "2", "0.5", "time", "p", "x", "der(x)", "u", "k"]
 BIN = ["+", "-", "*", "/", "^"]
@@ -139,6 +140,9 @@ def structured_models(tier):
     add("decl-eq", "  Real a = 2 * b;\n  Real b;\n  parameter Real p = 3;\n", "  b = p + time;\n")
     add("nested-comp", "  Real a;\n  N n1;\n  N n2;\n", "  a = n1.y + n2.y;\n  n1.z = a;\n  n2.z = 2;\n",
         pre="model N\n  Real y;\n  Real z;\n  parameter Real g = 4;\nequation\n  y = g * z;\nend N;\n")
+    ms += loop_subscript_models(tier)
+    ms += fun_loop_models(tier)
+    ms += call_site_models(tier)
     if tier == "thorough":
         for n, (i, j) in itertools.product((2, 3), itertools.product((1, 2), (1, 2))):
             add(f"idx-comp[{n}][{i},{j}]", f"  Q qq[2];\n  Real a;\n", f"  a = qq[{i}].w[{j}];\n",
@@ -146,6 +150,215 @@ def structured_models(tier):
         for lo, hi, st in [(1, 3, 2), (3, 1, -1), (2, 3, 1), (3, 3, 1)]:
             cnt = len(range(lo, hi + (1 if st > 0 else -1), st))
             add(f"for-range[{lo}:{st}:{hi}]", V, f"  for i in {lo}:{st}:{hi} loop\n    w[i] = v[i] + i;\n  end for;\n")
+    return ms
+
+
+# ---- for-loops whose subscripts are general integer expressions of the loop variable ----------
+# Every subscript is Python-evaluable over (i, n); n is declared `parameter Integer n` = number of
+# loop values.  Classes: unit-stride offsets (controls), scaled, reversed, non-affine.
+LOOP_SUBSCRIPTS = [
+    ("i", "unit"), ("i + 1", "unit"), ("1 + i", "unit"), ("i - 1", "unit"), ("i + 2", "unit"),
+    ("2 * i", "scaled"), ("i * 2", "scaled"), ("3 * i", "scaled"), ("2 * i - 1", "scaled"),
+    ("2 * i + 1", "scaled"), ("i + i", "scaled"), ("2 * (i - 1) + 1", "scaled"), ("3 * i - 2", "scaled"),
+    ("4 - i", "reversed"), ("-i + 4", "reversed"), ("n + 1 - i", "reversed"), ("7 - 2 * i", "reversed"),
+    ("2 * n - i", "reversed"),
+    ("i * i", "nonaffine"), ("i * i - i + 1", "nonaffine"), ("i * (i + 1)", "nonaffine"),
+    ("(n - i) * i + 1", "nonaffine"),
+]
+LOOP_RANGES = {"quick": ["1:3", "2:3"], "thorough": ["1:3", "1:2", "2:3", "1:4", "1:2:5", "2:2:4"]}
+# (a negative step is the separate case for-range[3:-1:1] of structured_models)
+LOOP_POSITIONS = {"quick": ["rhs", "lhs", "mat-fixrow", "row-slice", "fun-read", "two"],
+                  "thorough": ["rhs", "lhs", "der", "mat-fixrow", "mat-fixcol", "row-slice", "two", "fun-read"]}
+# both subscripts of a 2-D array depend on the loop variable: kept to two subscripts (see known findings)
+LOOP_DIAG = [("i", "1:3"), ("2 * i", "1:3")]
+
+
+def range_values(rng):
+    p = [int(x) for x in rng.split(":")]
+    lo, st, hi = (p[0], 1, p[1]) if len(p) == 2 else p
+    return list(range(lo, hi + (1 if st > 0 else -1), st))
+
+
+def sub_values(sub, loop_vals):
+    n = len(loop_vals)
+    return [int(eval(sub, {"__builtins__": {}}, {"i": i, "n": n})) for i in loop_vals]
+
+
+def loop_subscript_model(sub, rng, pos, slack):
+    """One model with subscript `sub` at position `pos` inside `for i in rng`.  The indexed array has
+    max(subscript)+slack elements (slack 0: an index error of one element is an out-of-bounds error,
+    slack > 0: it silently reads a neighbour).  Returns text or None if a subscript would be < 1."""
+    iv = range_values(rng)
+    sv = sub_values(sub, iv)
+    if min(sv) < 1 or len(iv) < 1:
+        return None
+    n, mi, size = len(iv), max(iv), max(sv) + slack
+    loop = lambda body: f"  for i in {rng} loop\n" + "".join(f"    {b}\n" for b in body) + "  end for;\n"
+    decl = f"  parameter Integer n = {n};\n  Real a;\n"
+    pre = ""
+    if pos == "rhs":
+        decl += f"  Real v[{size}];\n  Real w[{mi}];\n"
+        eqs = loop([f"w[i] = v[{sub}] * 2 + i * a;"])
+    elif pos == "lhs":
+        decl += f"  Real v[{size}];\n  Real w[{mi}];\n"
+        eqs = loop([f"v[{sub}] = w[i] - i;"])
+    elif pos == "der":
+        decl += f"  Real v[{size}];\n  Real w[{mi}];\n"
+        eqs = loop([f"der(v[{sub}]) = w[i] - v[{sub}] * i;"])
+    elif pos == "two":
+        # the same array under two different subscript expressions in one loop body
+        other = f"{mi + 1} - i" if sub != f"{mi + 1} - i" else "2 * i"
+        size = max(size, max(sub_values(other, iv)) + slack, mi)
+        decl += f"  Real v[{size}];\n  Real w[{mi}];\n  Real z[{mi}];\n"
+        eqs = loop([f"w[i] = v[{sub}] - v[{other}];", f"z[i] = v[i] + a * v[{sub}];"])
+    elif pos == "mat-fixrow":
+        decl += f"  Real A[2,{size}];\n  Real r[{mi}];\n"
+        eqs = loop([f"r[i] = A[2,{sub}] * a - A[1,{sub}];"])
+    elif pos == "mat-fixcol":
+        decl += f"  Real A[{size},2];\n  Real r[{mi}];\n"
+        eqs = loop([f"r[i] = A[{sub},2] - A[{sub},1] * i;"])
+    elif pos == "row-slice":
+        decl += f"  Real A[{size},2];\n  Real B[{mi},2];\n"
+        eqs = loop([f"B[i,:] = A[{sub},:] * 2;"])
+    elif pos == "mat-diag-col":
+        decl += f"  Real A[{mi},{size}];\n  Real r[{mi}];\n"
+        eqs = loop([f"r[i] = A[i,{sub}] * a;"])
+    elif pos == "mat-diag-row":
+        decl += f"  Real A[{size},{mi}];\n  Real r[{mi}];\n"
+        eqs = loop([f"r[i] = A[{sub},i] + a;"])
+    elif pos == "fun-read":
+        sub = re.sub(r"\bn\b", str(n), sub)  # no parameters inside the function: n as a literal
+        pre = (f"function g\n  input Real x[{size}];\n  output Real s;\nalgorithm\n  s := 0;\n"
+               f"  for i in {rng} loop\n    s := 2 * s + x[{sub}] * i;\n  end for;\nend g;\n")
+        decl = f"  Real a;\n  Real v[{size}];\n"
+        eqs = "  a = g(v) - 1;\n"
+    else:
+        raise ValueError(pos)
+    return pre + "model M\n" + decl + "equation\n" + eqs + "end M;\n"
+
+
+def loop_subscript_models(tier):
+    ms, seen = [], set()
+    for (sub, kind), rng, pos in itertools.product(LOOP_SUBSCRIPTS, LOOP_RANGES[tier], LOOP_POSITIONS[tier]):
+        slacks = (0, 2) if (tier == "thorough" or pos == "rhs") else (2,)
+        for slack in slacks:
+            t = loop_subscript_model(sub, rng, pos, slack)
+            if t is None or t in seen:
+                continue
+            seen.add(t)
+            ms.append((f"for-sub[{sub}|{rng}|{pos}|slack{slack}]", t, "M"))
+    for (sub, rng), pos in itertools.product(LOOP_DIAG, ("mat-diag-col", "mat-diag-row")):
+        ms.append((f"for-sub[{sub}|{rng}|{pos}|slack0]", loop_subscript_model(sub, rng, pos, 0), "M"))
+    return ms
+
+
+# ---- user functions whose for-statement body has several, mutually dependent statements -------
+# (name, body statements using outputs a, b, locals t, c and loop index i)
+FUN_LOOP_BODIES = [
+    ("indep", ["a := 2 * a;", "b := b + 1;"]),
+    ("fwd", ["a := 2 * a;", "b := b + a;"]),
+    ("bwd", ["b := b + a;", "a := 2 * a;"]),
+    ("mutual", ["b := a + i * b;", "a := b - a;"]),
+    ("index", ["a := a + i;", "b := 3 * b - a;"]),
+    ("three", ["a := a + b;", "b := a - 2 * b;", "c := c + a - b;"]),
+    ("swap", ["t := a;", "a := b;", "b := t + i;"]),
+    ("twice", ["a := a + b;", "a := a * 2;", "b := b + a;"]),
+    ("local-chain", ["t := a + b;", "c := t * 2 - c;", "a := c + i;", "b := b - t;"]),
+    ("nonlin", ["a := a * b;", "b := b + a;"]),
+    ("if-stmt", ["if a > b then", "  a := a - b;", "else", "  b := b - a;", "end if;"]),
+    ("nested", ["for j in 1:2 loop", "  a := a + j * b;", "  b := b - a;", "end for;"]),
+]
+FUN_LOOP_RANGES = {"quick": ["1:3", "1:2"], "thorough": ["1:2", "1:3", "1:4", "2:2:6"]}
+FUN_LOOP_CALLS = {
+    "multi": ("  Real x, y, p, q;\n", "  (p, q) = f(x, y);\n"),
+    "trunc": ("  Real x, y, p, q;\n", "  p = f(x, y) + q;\n  q = 2 * f(y, x);\n"),
+    "nested-arg": ("  Real x, y, p, q;\n", "  (p, q) = f(x + 1, f(y, x));\n"),
+    "in-loop": ("  Real x[2], y[2], p[2];\n", "  for k in 1:2 loop\n    p[k] = f(x[k], y[k]) * k;\n  end for;\n"),
+}
+
+
+def fun_loop_model(body, rng, call):
+    stm = "".join(f"    {s}\n" for s in body)
+    fn = ("function f\n  input Real x;\n  input Real y;\n  output Real a;\n  output Real b;\nprotected\n  Real t;\n  Real c;\n"
+          f"algorithm\n  a := x;\n  b := y;\n  t := 1;\n  c := 0;\n  for i in {rng} loop\n{stm}  end for;\n"
+          "  b := b + c - t;\nend f;\n")
+    decl, eqs = FUN_LOOP_CALLS[call]
+    return fn + "model M\n" + decl + "equation\n" + eqs + "end M;\n"
+
+
+def fun_loop_models(tier):
+    ms = []
+    for (name, body), rng, call in itertools.product(FUN_LOOP_BODIES, FUN_LOOP_RANGES[tier], FUN_LOOP_CALLS):
+        if call == "nested-arg" and (name, rng) != ("fwd", "1:3"):
+            continue  # a call with several outputs as an argument: one representative (see known findings)
+        if name in ("if-stmt", "nested") and (rng, call) != ("1:2", "multi"):
+            continue  # compound statements inside a for-statement: one representative each (see known findings)
+        if tier == "quick" and not (call in ("multi", "nested-arg") or (rng == "1:3" and name in ("fwd", "mutual", "swap"))):
+            continue
+        if name == "nonlin" and len(range_values(rng)) > 2:
+            continue  # keep the polynomial degree small enough for the solver
+        ms.append((f"fun-loop[{name}|{rng}|{call}]", fun_loop_model(body, rng, call), "M"))
+    # array-valued state updated element by element next to a scalar accumulator
+    for n in (3,):
+        for order in ("elem-first", "acc-first"):
+            body = [f"y[i] := y[i] + s;", f"s := s + y[i] * i;"]
+            if order == "acc-first":
+                body.reverse()
+            fa = (f"function fa\n  input Real x[{n}];\n  output Real s;\n  output Real y[{n}];\nalgorithm\n  s := 1;\n  y := x;\n"
+                  f"  for i in 1:{n} loop\n" + "".join(f"    {b}\n" for b in body) + "  end for;\nend fa;\n")
+            ms.append((f"fun-loop-array[{n}|{order}]",
+                       fa + f"model M\n  Real v[{n}];\n  Real w[{n}];\n  Real a;\nequation\n  (a, w) = fa(v);\nend M;\n", "M"))
+    return ms
+
+
+# ---- the same function called at several places (outside loops) on related operands -----------
+def call_site_models(tier):
+    ms = []
+
+    def add(i, decl, eqs, pre, init=""):
+        t = pre + "model M\n" + decl + "equation\n" + eqs + ("initial equation\n" + init if init else "") + "end M;\n"
+        ms.append((f"fun-call[{i}]", t, "M"))
+
+    SAT = "function sat\n  input Real u;\n  input Real k;\n  output Real y;\nalgorithm\n  y := k * u / (1 + u * u);\nend sat;\n"
+    V = "  Real x[3];\n  Real y[3];\n  Real z;\n  parameter Real g[3] = {1, 2, 3};\n"
+    # bare element references of the same arrays: every pair of distinct elements, and a repeated one
+    pairs = [(1, 2), (2, 3), (3, 1)] if tier == "quick" else [(i, j) for i in (1, 2, 3) for j in (1, 2, 3) if i != j]
+    for i, j in pairs:
+        k = 6 - i - j
+        add(f"elem[{i},{j}]", V, f"  der(x[{i}]) = -sat(x[{i}], g[{i}]);\n  der(x[{j}]) = -sat(x[{j}], g[{j}]);\n"
+            f"  der(x[{k}]) = x[1] - x[3];\n  y = x;\n  z = sat(z, z);\n", SAT)
+    add("elem-cross", V, "  y[1] = sat(x[1], g[2]);\n  y[2] = sat(x[2], g[1]);\n  y[3] = sat(x[1], g[1]) + sat(x[2], g[2]);\n"
+        "  z = x[3];\n  der(x) = y;\n", SAT)
+    add("elem-repeat", V, "  y[1] = sat(x[1], g[1]) + sat(x[1], g[1]);\n  y[2] = sat(x[2], g[1]) * sat(x[1], g[1]);\n"
+        "  y[3] = sat(x[3], z);\n  z = sat(x[3], z) + 1;\n  der(x) = y;\n", SAT)
+    add("elem-and-loop", V, "  der(x[1]) = -sat(x[1], g[1]);\n  der(x[2]) = -sat(x[2], g[2]);\n  der(x[3]) = sat(x[3], g[3]);\n"
+        "  for i in 1:3 loop\n    y[i] = sat(x[i], g[i]);\n  end for;\n  z = sat(z, z) + x[2];\n", SAT)
+    add("elem-scalar-mix", V, "  y[1] = sat(x[1], z);\n  y[2] = sat(x[2], z);\n  y[3] = sat(z, x[3]);\n  z = sat(z, x[1]);\n  der(x) = y;\n", SAT)
+    add("elem-expr-arg", V, "  y[1] = sat(2 * x[1], g[1]);\n  y[2] = sat(2 * x[2], g[2]);\n  y[3] = sat(x[3] + x[1], g[3]);\n  z = 1;\n  der(x) = y;\n", SAT)
+    add("elem-nested-call", V, "  y[1] = sat(sat(x[1], g[1]), g[2]);\n  y[2] = sat(sat(x[2], g[2]), g[1]);\n  y[3] = sat(x[3], g[3]);\n"
+        "  z = sat(x[2], g[2]);\n  der(x) = y;\n", SAT)
+    add("elem-initial", V, "  der(x) = y;\n  y[1] = sat(x[1], g[1]);\n  y[2] = sat(x[2], g[2]);\n  y[3] = x[3];\n  z = 0;\n", SAT,
+        init="  x[1] = sat(x[2], g[2]);\n  x[2] = sat(x[3], g[3]);\n  x[3] = sat(x[3], g[1]);\n")
+    add("elem-if", V, "  y[1] = if x[1] > 0 then sat(x[1], g[1]) else sat(x[2], g[2]);\n  if z > 1 then\n    y[2] = sat(x[2], g[3]);\n"
+        "  else\n    y[2] = sat(x[3], g[2]);\n  end if;\n  y[3] = sat(x[3], g[3]);\n  z = time;\n  der(x) = y;\n", SAT)
+    # 2-D elements / rows, slices of 1-D arrays
+    DOT = ("function dot2\n  input Real u[2];\n  input Real v[2];\n  output Real s;\nalgorithm\n  s := u[1] * v[1] + 2 * u[2] * v[2];\nend dot2;\n")
+    add("mat-elem", "  Real A[2,2];\n  Real r[4];\n", "  r[1] = sat(A[1,2], A[2,1]);\n  r[2] = sat(A[2,1], A[1,2]);\n"
+        "  r[3] = sat(A[1,1], A[2,2]);\n  r[4] = sat(A[2,2], A[1,1]);\n", SAT)
+    add("slice", "  Real v[4];\n  Real r[3];\n", "  r[1] = dot2(v[1:2], v[3:4]);\n  r[2] = dot2(v[2:3], v[1:2]);\n  r[3] = dot2(v[3:4], v[2:3]);\n", DOT)
+    add("mat-row", "  Real A[3,2];\n  Real r[3];\n", "  r[1] = dot2(A[1,:], A[2,:]);\n  r[2] = dot2(A[2,:], A[3,:]);\n  r[3] = dot2(A[3,:], A[1,:]);\n", DOT)
+    # several outputs per call site
+    H = "function h\n  input Real x;\n  output Real y;\n  output Real z;\nalgorithm\n  y := x * 2;\n  z := y + x * x;\nend h;\n"
+    add("multi-out", "  Real v[3];\n  Real a, b, c, d, e;\n", "  (a, b) = h(v[1]);\n  (c, d) = h(v[2]);\n  e = h(v[3]);\n  der(v[1]) = a;\n  der(v[2]) = c + d;\n  der(v[3]) = e - b;\n", H)
+    # components of the same class / of an array of components
+    N = "model N\n  Real y;\n  Real z;\nequation\n  der(y) = z;\nend N;\n"
+    add("comp", "  N n1;\n  N n2;\n  parameter Real k = 2;\n", "  n1.z = sat(n1.y, k);\n  n2.z = sat(n2.y, k);\n", SAT + N)
+    if tier == "thorough":
+        add("comp-array", "  N n[2];\n  parameter Real k = 2;\n", "  n[1].z = sat(n[1].y, k);\n  n[2].z = sat(n[2].y, k);\n", SAT + N)
+        # two different functions on the same operands, and the same function name reached twice
+        SAT2 = SAT.replace("sat", "sat2").replace("k * u", "k + u")
+        add("two-functions", V, "  y[1] = sat(x[1], g[1]);\n  y[2] = sat2(x[1], g[1]);\n  y[3] = sat2(x[2], g[1]);\n  z = sat(x[2], g[1]);\n"
+            "  der(x) = y;\n", SAT + SAT2)
     return ms
 
 
